@@ -300,6 +300,10 @@ func (p *untypedParamBinder) setFieldValue(target reflect.Value, defaultValue in
 
 	ok, err := p.tryUnmarshaler(target, defaultValue, data)
 	if err != nil {
+		if data == "" && defaultValue == nil {
+			// absent or empty without default: the zero value, even when the type rejects an empty text
+			return nil
+		}
 		return errors.InvalidType(p.Name, p.parameter.In, tpe, data)
 	}
 	if ok {
